@@ -144,6 +144,13 @@ VSCHED_WRAP = ['pthread_mutex_init', 'pthread_mutex_destroy', 'pthread_mutex_loc
                'pthread_cond_broadcast', 'pthread_create', 'pthread_join']
 
 
+def covdir():
+    d = os.environ.get('VERIF_COVDIR')
+    if d:
+        os.makedirs(d, exist_ok=True)
+    return d
+
+
 def w2c2_binary(variant='plain', extra_link=None, extra_name=''):
     """build (or reuse) the w2c2 executable of the given variant from /repo's current working tree"""
     if variant == 'vsched' and extra_link is None:
@@ -153,6 +160,12 @@ def w2c2_binary(variant='plain', extra_link=None, extra_name=''):
         return w2c2_binary('vsched', extra_link=['-I', os.path.join(VERIF, 'c'), vs, '-Wl,' + ','.join('--wrap=' + w for w in VSCHED_WRAP)],
                            extra_name='-' + tag)
     cd = cache_dir()
+    cov = covdir()
+    if cov:
+        # measurement mode (tools/coverage.sh): every translator variant is a gcc --coverage build whose objects (and therefore
+        # the .gcda counters) stay in VERIF_COVDIR; never used by a registered check
+        cd = cov
+        extra_name += '-cov'
     extra_name += '-' + hashlib.sha256(repr(VARIANTS[variant]).encode()).hexdigest()[:6]
     out = os.path.join(cd, 'w2c2-' + variant + extra_name)
     if os.path.exists(out):
@@ -163,7 +176,12 @@ def w2c2_binary(variant='plain', extra_link=None, extra_name=''):
             return out
         cc, cflags, defs, ld = VARIANTS[variant]
         d, cs, _ = w2c2_sources()
-        tmp = tempfile.mkdtemp(prefix='build-', dir=cd)
+        if cov:
+            cc, cflags, ld = 'gcc', ['-O0', '-g0', '-w', STD, '--coverage'] + [f for f in cflags if f.startswith('-D')], ld + ['--coverage']
+            tmp = os.path.join(cd, 'obj-' + variant + extra_name)
+            os.makedirs(tmp, exist_ok=True)
+        else:
+            tmp = tempfile.mkdtemp(prefix='build-', dir=cd)
         try:
             procs = []
             for c in cs:
@@ -183,7 +201,8 @@ def w2c2_binary(variant='plain', extra_link=None, extra_name=''):
                 raise InfraError('linking w2c2 (%s) failed:\n%s' % (variant, r.stderr.decode(errors='replace')[-3000:]))
             os.rename(out + '.tmp', out)
         finally:
-            shutil.rmtree(tmp, ignore_errors=True)
+            if not cov:
+                shutil.rmtree(tmp, ignore_errors=True)
     return out
 
 
@@ -681,6 +700,14 @@ def build_unit(src_name, out_name, cmd_prefix, extra_args=(), libs=()):
     cd = cache_dir()
     src = os.path.join(VERIF, 'c', src_name)
     h = hashlib.sha256(open(src, 'rb').read() + repr((cmd_prefix, extra_args, libs)).encode()).hexdigest()[:10]
+    cov = covdir()
+    cwd = None
+    if cov:
+        # measurement mode: gcov counters of the unit (wasi.c, futex/*.c) land in VERIF_COVDIR/unit-<name>
+        cd = cov
+        cwd = os.path.join(cov, 'unit-%s-%s' % (out_name, h))
+        os.makedirs(cwd, exist_ok=True)
+        cmd_prefix = list(cmd_prefix) + ['--coverage']
     out = os.path.join(cd, '%s-%s' % (out_name, h))
     if os.path.exists(out):
         return out
@@ -688,7 +715,7 @@ def build_unit(src_name, out_name, cmd_prefix, extra_args=(), libs=()):
         if os.path.exists(out):
             return out
         r = run(list(cmd_prefix) + ['-I', os.path.join(REPO, 'w2c2'), '-I', os.path.join(REPO, 'futex'),
-                                    '-I', os.path.join(REPO, 'wasi'), src] + list(extra_args) + ['-o', out + '.tmp'] + list(libs))
+                                    '-I', os.path.join(REPO, 'wasi'), src] + list(extra_args) + ['-o', out + '.tmp'] + list(libs), cwd=cwd)
         if r.returncode != 0:
             raise InfraError('building %s failed:\n%s' % (src_name, r.stderr.decode(errors='replace')[-3000:]))
         os.rename(out + '.tmp', out)
